@@ -7,7 +7,7 @@
  * talks about (priorities pushed and popped, values before and after a sort, keys in traversal
  * order, ...), not the link state.  They are judged by TLC with spec/TraceBig.tla.
  *
- * usage: drv_big <out> <seed> <what>...     what = heap:<n> | slist:<n> | dlist:<n> | rb:<n> | bst:<n> | map:<n> | hash:<n> | sort:<n>
+ * usage: drv_big <out> <seed> <what>...     what = heap:<n> | slist:<n> | dlist:<n> | rb:<n> | bst:<n> | map:<n> | hash:<n> | sort:<n> | vec:<n> | str:<n>
  */
 #include <stdio.h>
 #include <stdlib.h>
@@ -25,11 +25,13 @@
 #include "cstl/hash.h"
 #include "cstl/array.h"
 #include "cstl/vector.h"
+#include "cstl/string.h"
 
 static FILE *out;
 static long rec_id;
-static sigjmp_buf jb;
-static void onsig(int s) { siglongjmp(jb, s); }
+static sigjmp_buf jb, jb2;
+static volatile int use2;            /* an abort that is the expected outcome of a call is caught separately */
+static void onsig(int s) { if (use2) { use2 = 0; siglongjmp(jb2, s); } siglongjmp(jb, s); }
 static unsigned long rs;
 static unsigned long rnd(void) { rs = rs * 6364136223846793005UL + 1442695040888963407UL; return rs >> 33; }
 
@@ -412,6 +414,85 @@ static void do_sort(long n)
     }
 }
 
+/* ---- vector of 12-byte elements with constructor and destructor: grow to n, reserve past it, shrink, sort, clear ---- */
+struct v12 { int tag; int pad[2]; };
+static long nctor, ndtor, xbad;
+static void vctor(void *e, void *p) { struct v12 *x = e; if (p != &priv_token) priv_ok = 0; x->tag = -1; x->pad[0] = 7; x->pad[1] = 9; nctor++; }
+static void vdtor(void *e, void *p) { struct v12 *x = e; if (p != &priv_token) priv_ok = 0; if (x->pad[0] != 7 || x->pad[1] != 9) xbad++; x->pad[0] = 0; ndtor++; }
+static int vcmp(const void *a, const void *b, void *p) { if (p != &priv_token) priv_ok = 0; return cmp3(((const struct v12 *)a)->tag, ((const struct v12 *)b)->tag); }
+static int tags_ok(struct cstl_vector *v, long n) { long i; for (i = 0; i < n; i++) if (((struct v12 *)cstl_vector_at(v, (size_t)i))->tag != (int)(i * 7 % 1000003)) return 0; return 1; }
+static void do_vec(long n)
+{
+    struct cstl_vector v; long i; int sig;
+    begin("vecbig", n);
+    sig = sigsetjmp(jb, 1);
+    if (sig == 0) {
+        long c1, cap1, kept1, cap2, kept2, d2, size2, cap3, kept3, sorted = 1, d3, size4, atend;
+        alarm(40);
+        nctor = ndtor = xbad = 0;
+        cstl_vector_init_complex(&v, sizeof(struct v12), vctor, vdtor, &priv_token);
+        for (i = 1; i <= n; i = i * 3 / 2 + 1) cstl_vector_resize(&v, (size_t)i);            /* grow in steps */
+        cstl_vector_resize(&v, (size_t)n);
+        c1 = nctor; cap1 = (long)cstl_vector_capacity(&v);
+        for (i = 0; i < n; i++) ((struct v12 *)cstl_vector_at(&v, (size_t)i))->tag = (int)(i * 7 % 1000003);
+        cstl_vector_reserve(&v, (size_t)(3 * n));
+        kept1 = tags_ok(&v, n); cap2 = (long)cstl_vector_capacity(&v);
+        cstl_vector_resize(&v, (size_t)(n / 2));
+        d2 = ndtor; size2 = (long)cstl_vector_size(&v); kept2 = tags_ok(&v, n / 2);
+        cstl_vector_shrink_to_fit(&v);
+        cap3 = (long)cstl_vector_capacity(&v); kept3 = tags_ok(&v, n / 2);
+        cstl_vector_sort(&v, vcmp, &priv_token);
+        for (i = 1; i < n / 2; i++) if (((struct v12 *)cstl_vector_at(&v, (size_t)i - 1))->tag > ((struct v12 *)cstl_vector_at(&v, (size_t)i))->tag) sorted = 0;
+        { int s2 = sigsetjmp(jb2, 1); atend = 0; if (s2 == 0) { use2 = 1; (void)cstl_vector_at(&v, (size_t)(n / 2)); use2 = 0; } else atend = s2 == SIGABRT; }
+        cstl_vector_clear(&v);
+        d3 = ndtor; size4 = (long)cstl_vector_size(&v);
+        alarm(0);
+        fprintf(out, "\"ctors\":%ld,\"cap1\":%ld,\"kept1\":%s,\"cap2\":%ld,\"dtors2\":%ld,\"size2\":%ld,\"kept2\":%s,\"cap3\":%ld,\"kept3\":%s,"
+                "\"sorted\":%s,\"atend\":%s,\"dtors\":%ld,\"size4\":%ld,\"xbad\":%ld",
+                c1, cap1, kept1 ? "true" : "false", cap2, d2, size2, kept2 ? "true" : "false", cap3, kept3 ? "true" : "false",
+                sorted ? "true" : "false", atend ? "true" : "false", d3, size4, xbad);
+        end_ok();
+    } else { alarm(0); end_sig(sig); }
+}
+
+/* ---- string: n characters appended in pieces, text inserted in the middle, the first half erased, substring, find ---- */
+static void do_str(long n)
+{
+    cstl_string_t s, sub; long i; int sig;
+    begin("strbig", n);
+    sig = sigsetjmp(jb, 1);
+    if (sig == 0) {
+        long size1, size2, size3, term = 1, content = 1, f1, f2, f3, subsize, cmp0, cap;
+        const char *p;
+        alarm(40);
+        cstl_string_init(&s); cstl_string_init(&sub);
+        for (i = 0; i < n; i += 1000) cstl_string_append_ch(&s, (size_t)(n - i < 1000 ? n - i : 1000), (char)('a' + (i / 1000) % 3));
+        size1 = (long)cstl_string_size(&s);
+        cstl_string_insert_str(&s, (size_t)(n / 2), "XYZ");
+        size2 = (long)cstl_string_size(&s);
+        p = cstl_string_str(&s);
+        if (p[size2] != 0) term = 0;
+        for (i = 0; i < size2; i++) {
+            char want = i < n / 2 ? (char)('a' + (i / 1000) % 3) : i < n / 2 + 3 ? "XYZ"[i - n / 2] : (char)('a' + ((i - 3) / 1000) % 3);
+            if (p[i] != want) { content = 0; break; }
+        }
+        f1 = (long)cstl_string_find_ch(&s, 'X', 0); f2 = (long)cstl_string_find_str(&s, "YZ", 0); f3 = (long)cstl_string_find_ch(&s, 'Q', 0);
+        cstl_string_erase(&s, 0, (size_t)(n / 2));
+        size3 = (long)cstl_string_size(&s);
+        p = cstl_string_str(&s);
+        if (p[size3] != 0 || p[0] != 'X' || p[1] != 'Y' || p[2] != 'Z') content = 0;
+        cstl_string_substr(&s, 1, (size_t)-1, &sub);
+        subsize = (long)cstl_string_size(&sub);
+        cmp0 = cstl_string_compare_str(&sub, cstl_string_str(&s) + 1);
+        cap = (long)cstl_string_capacity(&s);
+        cstl_string_clear(&s); cstl_string_clear(&sub);
+        alarm(0);
+        fprintf(out, "\"size1\":%ld,\"size2\":%ld,\"term\":%s,\"content\":%s,\"f1\":%ld,\"f2\":%ld,\"f3\":%ld,\"size3\":%ld,\"subsize\":%ld,\"cmp0\":%ld,\"cap\":%ld",
+                size1, size2, term ? "true" : "false", content ? "true" : "false", f1, f2, f3, size3, subsize, cmp0, cap);
+        end_ok();
+    } else { alarm(0); end_sig(sig); }
+}
+
 int main(int argc, char **argv)
 {
     int a;
@@ -435,6 +516,8 @@ int main(int argc, char **argv)
         else if (!strncmp(argv[a], "map", 3)) do_map(n);
         else if (!strncmp(argv[a], "hash", 4)) do_hash(n);
         else if (!strncmp(argv[a], "sort", 4)) do_sort(n);
+        else if (!strncmp(argv[a], "vec", 3)) do_vec(n);
+        else if (!strncmp(argv[a], "str", 3)) do_str(n);
     }
     fclose(out);
     printf("{\"records\":%ld}\n", rec_id);
